@@ -63,6 +63,9 @@ def parseCirc (segs : List (List String)) : Option CircReq :=
   match segs with
   | ["circ", be, nq, nc, sh] :: opsegs => do
     some ⟨← parseBackend be, ← nat? nq, ← nat? nc, ← nat? sh, ← parseOps opsegs, none⟩
+  -- through the C interface: representation chosen by the library (deterministic basis-state circuits: either gives the same words)
+  | ["circffi", _be, nq, nc, sh] :: opsegs => do
+    some ⟨← parseBackend "v", ← nat? nq, ← nat? nc, ← nat? sh, ← parseOps opsegs, none⟩
   | ["circfrom", be, nq, nc, sh] :: ("init" :: ini) :: opsegs => do
     let nqv ← nat? nq
     let shots ← parseInit nqv ini
@@ -91,6 +94,13 @@ def handle (line : String) : String :=
   | ("circ" :: _) :: _ =>
     match parseCirc segs with
     | some r => showRes (circText r.nc r.nshots r.ops.length) (run r.be r.nq r.nc r.nshots r.ops)
+    | none => "bad-op"
+  | ("circffi" :: _) :: _ =>
+    match parseCirc segs with
+    | some r => (match run r.be r.nq r.nc r.nshots r.ops with
+      | .ok traces => "ok " ++ joinWords (finalWords r.nshots traces)
+      | .err c _ => s!"err {c}"
+      | .panic _ => "panic")
     | none => "bad-op"
   | ("circfrom" :: _) :: _ =>
     match parseCirc segs with
@@ -216,6 +226,16 @@ def specCheck (line : String) : String :=
     | ("circ" :: _) :: _ | ("circfrom" :: _) :: _ =>
       match parseCirc segs with
       | some r => specCirc r ans
+      | none => "fail bad-request"
+    | ("circffi" :: _) :: _ =>
+      match parseCirc segs with
+      | some r =>
+        if !(r.ops.all (Spec.Register.opValid r.nq r.nc)) then "skip" else
+        let refTrace := Spec.Register.trace r.nq r.ops (initShot r.nq)
+        let fin := match refTrace.getLast? with | some s => s.word | none => 0
+        let expected := "ok " ++ joinWords (List.replicate r.nshots fin)
+        if ans.trimAscii.toString = expected.trimAscii.toString then "ok"
+        else s!"fail register-write-through-c-interface expected {expected.take 80}"
       | none => "fail bad-request"
     | ["nwords", _k, n, _hist] :: _ =>
       if ans.trimAscii.toString = s!"ok {n}" then "ok" else s!"fail views register-does-not-hold-exactly-the-N-words-of-the-run expected {n}"
